@@ -20,6 +20,8 @@ func init() {
 	register(&Rule{ID: "C01.NILELEM", Min: 3, Doc: "a parse result that may be nil is not stored as an element of a sequence or mapping without a nil test", Run: runC01NilElem})
 	register(&Rule{ID: "C14.WHOLE", Min: 4, Doc: "the type of a placeholder stands for the whole scalar only when the scalar is exactly one placeholder", Run: runC14Whole})
 	register(&Rule{ID: "C11.SCAN", Min: 1, Doc: "the scan over the placeholders of a scalar stops early only on a syntax error", Run: runC11Scan})
+	register(&Rule{ID: "C03.REPLACE", Min: 20, Doc: "a node filled key by key is the same object for the whole key loop", Run: runC03Replace})
+	register(&Rule{ID: "C16.WIDTH", Min: 2, Doc: "the caret line of a snippet is measured in terminal cells throughout", Run: runC16Width})
 	register(&Rule{ID: "C03.DEFER", Min: 1, Doc: "a value parsed before the node it belongs to exists is handed over when the node is created (key order independence)", Run: runC03Defer})
 }
 
@@ -642,5 +644,132 @@ func runC11Scan(c *Ctx) {
 	}
 	if n == 0 {
 		c.undecided("(*RuleExpression).checkExprsIn|early exit", fn.Pos(), "no exit from the scan found")
+	}
+}
+
+// ---- C03.REPLACE ----
+
+// A node that receives fields key by key must stay the same object for the whole key loop: replacing it in one case loses
+// what the earlier keys stored (key order dependence).
+func runC03Replace(c *Ctx) {
+	p := c.P
+	n := 0
+	for _, fn := range p.Funcs {
+		if !strings.HasSuffix(p.File(fn.Pos()), "/parse.go") || fn.Parent() != nil {
+			continue
+		}
+		// nodes under construction: allocations of module struct types whose fields are stored inside a loop
+		for _, h := range loopHeaders(fn) {
+			body := naturalLoop(h)
+			// bases of field stores inside the loop
+			bases := map[ssa.Value]bool{}
+			for b := range body {
+				for _, in := range b.Instrs {
+					if st, ok := in.(*ssa.Store); ok {
+						if fa, ok := st.Addr.(*ssa.FieldAddr); ok {
+							if nm := namedOf(fa.X.Type()); nm != nil && nm.Obj().Pkg() != nil && nm.Obj().Pkg().Path() == modPath {
+								bases[fa.X] = true
+							}
+						}
+					}
+				}
+			}
+			for base := range bases {
+				construct := fmt.Sprintf("%s|node %s filled in the loop at block %d", FuncName(fn), typeStr(base.Type()), h.Index)
+				ph, isPhi := base.(*ssa.Phi)
+				if !isPhi || ph.Block() != h {
+					// defined outside the loop (one object for all keys) or created per iteration
+					if !definedIn(base, body) {
+						n++
+						c.ok(construct, fn.Pos(), "one object for all keys")
+					}
+					continue
+				}
+				n++
+				replaced := false
+				for i, e := range ph.Edges {
+					if body[h.Preds[i]] && e != ssa.Value(ph) {
+						replaced = true
+					}
+				}
+				if replaced {
+					c.bad(construct, ph.Pos(), "the node that collects the keys is replaced by another object inside the key loop: what earlier keys stored into it is lost, so the result depends on the order of the keys")
+				} else {
+					c.ok(construct, ph.Pos(), "the same object on every iteration")
+				}
+			}
+		}
+	}
+	if n == 0 {
+		c.undecided("parse.go|nodes filled in loops", token.NoPos, "no node filled key by key found")
+	}
+}
+
+// ---- C16.WIDTH ----
+
+// The caret line of a snippet is positioned in terminal cells: the space before `^` and the `~` underline must both be
+// measured with the same cell-width functions; a width taken from a byte or rune count puts the caret under the wrong
+// character whenever the two units differ.
+func runC16Width(c *Ctx) {
+	p := c.P
+	fn := p.Method("Error", "getIndicator")
+	if fn == nil {
+		c.anchorMissing("(*Error).getIndicator")
+		return
+	}
+	n := 0
+	eachInstr(fn, func(_ *ssa.BasicBlock, _ int, in ssa.Instruction) {
+		call, ok := in.(*ssa.Call)
+		if !ok || calleeFullName(&call.Call) != "strings.Repeat" {
+			return
+		}
+		n++
+		what, _ := constString(call.Call.Args[0])
+		construct := fmt.Sprintf("(*Error).getIndicator|width of the %q run", what)
+		var bad []string
+		cells := false
+		seen := map[ssa.Value]bool{}
+		var walk func(v ssa.Value, d int)
+		walk = func(v ssa.Value, d int) {
+			if d > 10 || seen[v] {
+				return
+			}
+			seen[v] = true
+			switch x := v.(type) {
+			case *ssa.Const:
+			case *ssa.BinOp:
+				walk(x.X, d+1)
+				walk(x.Y, d+1)
+			case *ssa.Phi:
+				for _, e := range x.Edges {
+					walk(e, d+1)
+				}
+			case *ssa.Convert:
+				walk(x.X, d+1)
+			case *ssa.Call:
+				name := calleeFullName(&x.Call)
+				if strings.HasPrefix(name, "github.com/mattn/go-runewidth.") {
+					cells = true
+					return
+				}
+				if bi, ok := x.Call.Value.(*ssa.Builtin); ok {
+					bad = append(bad, bi.Name()+"()")
+					return
+				}
+				bad = append(bad, name)
+			default:
+				bad = append(bad, symName(v))
+			}
+		}
+		walk(call.Call.Args[1], 0)
+		sort.Strings(bad)
+		if cells && len(bad) == 0 {
+			c.ok(construct, call.Pos(), "measured in terminal cells (go-runewidth)")
+		} else {
+			c.bad(construct, call.Pos(), "the width is not measured in terminal cells only (uses "+strings.Join(bad, ", ")+"): after a wide or zero-width character the caret is not under the reported column")
+		}
+	})
+	if n < 2 {
+		c.bad("(*Error).getIndicator|indicator", fn.Pos(), "the indicator is not built from a run of spaces and a run of ~")
 	}
 }
